@@ -983,6 +983,7 @@ pub fn run(ctx: &Ctx) -> Outcome {
     out.set("phase_seconds_sequences", (start.elapsed().as_secs_f64() * 10.0).round() / 10.0);
     // (I) index
     let t_index = std::time::Instant::now();
+    let capped_index = std::sync::atomic::AtomicU64::new(0);
     let icases = index_cases(ctx);
     let n_index = icases.len();
     let iresults = vcore::par_map(vcore::smallx::chunks(&icases, ctx.workers * 8), ctx.workers, |_, slice| {
@@ -991,6 +992,10 @@ pub fn run(ctx: &Ctx) -> Outcome {
         for c in slice {
             let nt = c["frags"].as_array().unwrap().len() >= 2 || c["frags"][0]["deleted"].as_array().map(|d| !d.is_empty()).unwrap_or(false);
             cov.eval(if nt { Some(vcore::hash64(c.to_string().as_bytes())) } else { None });
+            if start.elapsed().as_secs_f64() > wall_cap + 15.0 {
+                capped_index.fetch_add(1, std::sync::atomic::Ordering::SeqCst);
+                continue;
+            }
             let r = check_index(&c);
             cov.outcome(if r.is_empty() { "index/ok" } else { "index/FAIL" });
             v.extend(r);
@@ -1003,7 +1008,8 @@ pub fn run(ctx: &Ctx) -> Outcome {
         violations.extend(v);
     }
     out.set("phase_seconds_index", (t_index.elapsed().as_secs_f64() * 10.0).round() / 10.0);
-    let capped = capped.load(std::sync::atomic::Ordering::SeqCst);
+    let capped_index = capped_index.load(std::sync::atomic::Ordering::SeqCst);
+    let capped = capped.load(std::sync::atomic::Ordering::SeqCst) + capped_index;
     cov.sample(json!({"kind":"seq_op","chunks":[[3,0,8],[5]],"op":{"Delete":{"ids":[8,5]}}}));
     cov.sample(json!({"kind":"seq_op","chunks":[[100,101,102,103],[502,500,501]],"op":{"Rechunk":{"sizes":[5,2],"allow":false,"merged":false}}}));
     cov.sample(icases[icases.len() / 2].clone());
@@ -1015,7 +1021,7 @@ pub fn run(ctx: &Ctx) -> Outcome {
     out.set("index_configurations", n_index as u64);
     out.set("segment_encodings_reached", json!(enc_seen));
     if capped > 0 {
-        out.set("cap_hit", format!("wall cap {wall_cap}s: {capped} subjects skipped"));
+        out.set("cap_hit", format!("wall cap {wall_cap}s: {} sequence subjects and {capped_index} index configurations skipped", capped - capped_index));
     }
     out.assume("mask positions / select indices are given in ascending order, rechunk inputs are the subject's own chunks (documented preconditions); ids are unique within a subject");
     out.assume("with_new_high is only called with values <= max+300 (a far value materialises the gap)");
